@@ -123,7 +123,15 @@ class World:
 
     def start(self):
         self.srv.start(wait=180)
-        self.tok = self.srv.logon("admin", "secret")
+        self.tok = None
+        for attempt in range(3):      # the first logon upgrades the stored credential (bcrypt): slow on a loaded machine
+            try:
+                r = self.srv.req("POST", "/services/admin/logon", auth=("admin", "secret"), timeout=240)
+                self.tok = (r.json() or {}).get("token")
+                if self.tok:
+                    break
+            except OSError:
+                pass
         if not self.tok:
             raise vf.NoVerdict("cannot log on to the scratch server")
         # DSNs are created one after the other (the file DSN store is not safe for concurrent creation)
@@ -133,7 +141,7 @@ class World:
 
     def mkdsn(self, name, database):
         r = self.srv.req("POST", "/dsns/", {"name": name, "provider": "sqlite", "database": database, "restricted": False},
-                         token=self.tok, timeout=120)
+                         token=self.tok, timeout=240)
         if r.status != 201:
             raise vf.NoVerdict("cannot create DSN %s: %r" % (name, r))
 
@@ -149,7 +157,7 @@ class World:
         return p
 
     def tx(self, dsn, tasks):
-        return self.srv.req("POST", "/dsns/%s/tables/@transaction" % dsn, tasks, token=self.tok, timeout=120)
+        return self.srv.req("POST", "/dsns/%s/tables/@transaction" % dsn, tasks, token=self.tok, timeout=240)
 
     def one(self, w, b, follow):
         """Run one behaviour on worker w's DSN; returns what really happened (projection only)."""
@@ -306,14 +314,14 @@ def run():
             behs, seen = [], set()
             gens = [("Transaction_Gen1.cfg", None, None), ("Transaction_GenN.cfg", None, None)]
             if thorough:
-                gens += [("Transaction_Gen2.cfg", None, None)] + [("Transaction_GenS%d.cfg" % L, 600, L) for L in (3, 4, 6)]
+                gens += [("Transaction_Gen2.cfg", None, None)] + [("Transaction_GenS%d.cfg" % L, 400, L) for L in (3, 4, 6)]
             else:
                 gens += [("Transaction_GenS%d.cfg" % L, 120, L) for L in (2, 4)]
 
             def gen(g):
                 cfg, num, L = g
                 if num is None:
-                    return vf.tlc(SPEC, SPEC + "_Gen", cfg, sd, workers=1, timeout=1500)
+                    return vf.tlc(SPEC, SPEC + "_Gen", cfg, sd, workers=4 if thorough else 1, timeout=2400)
                 return vf.tlc(SPEC, SPEC + "_Gen", cfg, sd, workers=1, simulate="num=%d" % num, depth=4 * L + 12,
                               seed=vf.SEED * 1000 + L, timeout=900)
             for (cfg, num, L), r in zip(gens, ThreadPoolExecutor(max_workers=3).map(gen, gens)):
@@ -329,6 +337,7 @@ def run():
             have = {b["exit"] for b in behs}
             if set(EXITS) - have:
                 raise vf.NoVerdict("generator never reached exits %s" % sorted(set(EXITS) - have))
+            behs.sort(key=lambda b: json.dumps([b["req"], b["dsn"]], sort_keys=True))
             random.Random(vf.SEED).shuffle(behs)
 
         # 3. the real server
@@ -343,7 +352,7 @@ def run():
             world.start()
             vf.log("server up, %d DSNs in %.1fs" % (world.n + 1, time.time() - t0))
             t0 = time.time()
-            gots = replay_all(world, behs, follow_every=1 if thorough or replay_file else 3)
+            gots = replay_all(world, behs, follow_every=1 if replay_file else 2 if thorough else 3)
             by = world.hook_events([g["sid"] for g in gots]) if hooked else {}
             vf.log("replayed %d requests in %.1fs" % (len(behs), time.time() - t0))
         finally:
